@@ -7,8 +7,12 @@ import (
 const faultTable = "zz_verif_fault"
 
 // InstallFaultTriggers installs, through the store's own database handle, BEFORE INSERT/UPDATE/
-// DELETE triggers on every table: each row write bumps a counter and aborts when the counter
+// DELETE triggers on every table: each row write bumps a counter and fails when the counter
 // reaches the armed position. No aggkit code is involved: the fault happens inside SQLite.
+// The fault is ONE-SHOT: RAISE(FAIL) keeps the counter increment of the failing statement (ABORT
+// would roll it back and make every later write of the transaction fail as well), so exactly the
+// k-th row write fails and the statements after it work again — a transaction that swallowed the
+// error would go on and commit without that row.
 func (n *Node) InstallFaultTriggers() {
 	must := func(q string) {
 		if _, err := n.DB.Exec(q); err != nil {
@@ -33,7 +37,7 @@ func (n *Node) InstallFaultTriggers() {
 		for _, op := range []string{"INSERT", "UPDATE", "DELETE"} {
 			must(fmt.Sprintf(`CREATE TRIGGER IF NOT EXISTS zz_vf_%s_%s BEFORE %s ON %s BEGIN
 				UPDATE %s SET k = k + 1;
-				SELECT RAISE(ABORT, 'verif: injected storage fault') WHERE (SELECT k FROM %s) = (SELECT armed FROM %s);
+				SELECT RAISE(FAIL, 'verif: injected storage fault') WHERE (SELECT k FROM %s) = (SELECT armed FROM %s);
 			END;`, t, op, op, t, faultTable, faultTable, faultTable))
 		}
 	}
